@@ -156,6 +156,7 @@ func FaultAnyOnce(kinds string)   {}
 func FaultDisarm()                {}
 func FaultFired() bool            { return false }
 func IOCount(kind string) int     { return 0 }
+func LastFault() (string, int)    { return "", -1 }
 func FileSize(path string) int64 {
 	fi, err := os.Stat(path)
 	if err != nil {
